@@ -406,6 +406,19 @@ pub(crate) fn format_cycle_path(
     path.join(" -> ")
 }
 
+/// Verification hook, compiled only with `--cfg rsactor_verif`: a read-only snapshot of the
+/// wait-for graph as `(waiting actor id, awaited actor id)` pairs. Never writes; tolerates a
+/// poisoned lock so that the snapshot itself cannot panic.
+#[cfg(all(rsactor_verif, feature = "deadlock-detection"))]
+#[doc(hidden)]
+pub fn __verif_wait_for_edges() -> Vec<(u64, u64)> {
+    let graph = match wait_for_graph().lock() {
+        Ok(g) => g,
+        Err(poisoned) => poisoned.into_inner(),
+    };
+    graph.iter().map(|(k, v)| (*k, v.id)).collect()
+}
+
 /// Type-erased payload handler trait for dynamic message dispatch.
 ///
 /// This trait allows different message types to be handled uniformly within the actor system,
